@@ -58,9 +58,27 @@ func (x *opsRunner) all() {
 		x.pair(p[0], p[1])
 	}
 	if x.c.Fam == "mixed" {
-		// IN list mixing literal representations: members of every table
-		x.inList(ts[0], ts, "in_list_mixed", 0)
+		// IN list mixing literal representations: the first row of t itself, then the rows of the other tables
+		for _, t := range ts {
+			if len(t.Vals) == 0 {
+				continue
+			}
+			ms := []member{{t, 0}}
+			for _, u := range ts {
+				if u != t {
+					for i := range u.Vals {
+						ms = append(ms, member{u, i})
+					}
+				}
+			}
+			x.inListOf(t, ms, "in_list_mixed_"+t.Type, 0)
+		}
 	}
+}
+
+type member struct {
+	t *Table
+	i int
 }
 
 func idsOf(ts []*Table) []int {
@@ -154,28 +172,34 @@ func (x *opsRunner) values(op, sem, q string, lts, rts []*Table, fam string) {
 	x.emit(o)
 }
 
-func (x *opsRunner) listSQL(us []*Table, pad int) (string, []int) {
+// inList: t.x IN (literals of the values of us), in a WHERE clause (hashed IN) and in the select list.
+func (x *opsRunner) inList(t *Table, us []*Table, op string, pad int) {
+	var ms []member
+	for _, u := range us {
+		for i := range u.Vals {
+			ms = append(ms, member{u, i})
+		}
+	}
+	x.inListOf(t, ms, op, pad)
+}
+
+func (x *opsRunner) inListOf(t *Table, ms []member, op string, pad int) {
 	var lits []string
 	members := []int{}
-	for _, u := range us {
-		for i, v := range u.Vals {
-			lits = append(lits, literal(v, u.Type))
-			members = append(members, u.ids[i])
-		}
+	us := []*Table{t}
+	for _, m := range ms {
+		lits = append(lits, literal(m.t.Vals[m.i], m.t.Type))
+		members = append(members, m.t.ids[m.i])
+		us = append(us, m.t)
 	}
 	for i := 0; len(lits) > 0 && len(lits) < pad; i++ {
 		lits = append(lits, lits[i])
 	}
-	return strings.Join(lits, ", "), members
-}
-
-// inList: t.x IN (literals of the values of us), in a WHERE clause (hashed IN) and in the select list.
-func (x *opsRunner) inList(t *Table, us []*Table, op string, pad int) {
-	list, members := x.listSQL(us, pad)
+	list := strings.Join(lits, ", ")
 	if len(members) == 0 {
 		return
 	}
-	fam := famLabel(x.c, append([]*Table{t}, us...)...)
+	fam := famLabel(x.c, us...)
 	o := newOp(x.c, op+"_where", fam, "inrows")
 	o.L, o.List = t.ids, members
 	q := fmt.Sprintf("SELECT id FROM %s WHERE x IN (%s)", t.Name, list)
@@ -186,6 +210,17 @@ func (x *opsRunner) inList(t *Table, us []*Table, op string, pad int) {
 		o.Plan = planOps(x.db, x.s, q)
 	}
 	x.emit(o)
+	if pad == 0 {
+		// NOT (x IN ...) in a WHERE clause keeps the rows where the (hashed) IN is FALSE, not NULL
+		o = newOp(x.c, op+"_notwhere", fam, "notinrows")
+		o.L, o.List = t.ids, members
+		if rows, ok := x.query(o, fmt.Sprintf("SELECT id FROM %s WHERE NOT (x IN (%s))", t.Name, list)); ok {
+			for _, r := range rows {
+				o.Rows = append(o.Rows, toInt(r[0]))
+			}
+		}
+		x.emit(o)
+	}
 	o = newOp(x.c, op+"_proj", fam, "in")
 	o.L, o.List = t.ids, members
 	if rows, ok := x.query(o, fmt.Sprintf("SELECT id, x IN (%s) FROM %s", list, t.Name)); ok {
